@@ -442,7 +442,13 @@ def run_program(f, prog_seed, nops, allowed=None, on_step=None):
         made = None
         for _ in range(8):
             name = names[int(rng.integers(len(names)))]
-            made = CORE_OPS[name](rng, cur)
+            try:
+                made = CORE_OPS[name](rng, cur)
+            except Exception:
+                # preparing the arguments (e.g. copying the current file to
+                # obtain a conforming operand) failed: the operation is not
+                # available on this file
+                made = None
             if made is not None:
                 break
         if made is None:
@@ -457,7 +463,7 @@ def run_program(f, prog_seed, nops, allowed=None, on_step=None):
             st.exc = e
         if on_step:
             on_step('after', st, pre)
-        if st.exc is not None or st.result is None:
+        if st.exc is not None or st.result is None or st.meta.get('stop'):
             break
         cur = st.result
     return trace
